@@ -577,3 +577,59 @@ B('d8_b_in_place_encodes_another_text', ['C09'], 'R09.b',
   (E, _ENC_BODY, "        if not isinstance(text, bytes):\n            text = self.message.encode(self.charset, 'backslashreplace')\n        return text\n"))
 B('d8_b_in_place_body_rebound_after_encoding', ['C09'], 'R09.b',
   (E, _ENC_BODY, _ENC_IN_PLACE), (E, _ADAPT_BODY, "        body = self._encode(_method())\n        body = self._encode(self.to_text())\n        self.data = body\n"))
+
+# ------------------------------------------------------------------ ninth pass: the way an error takes to a negotiating renderer --
+# execute_error() hands back only what the route's render_error returned (anything else is an exception), and the application answers
+# any exception from it with default_render_error()
+_EXEC_GUARD = "        if not callable(self.render_error):\n            raise TypeError('render_error not set or not callable')\n"
+_EXEC_RET = "        return inject(self.render_error, injectables)\n"
+_DISPATCH_ERR = ("            try:\n                ret = ret.source_route.execute_error(**error_params)\n            except Exception:\n"
+                 "                ret = default_render_error(**error_params)\n")
+_DISPATCH_ERR_TAIL = "        if isinstance(ret, HTTPException):\n            error_params = dict(params, _error=ret)\n" + _DISPATCH_ERR + "        return ret\n"
+_DISPATCH_EARLY = ("        if not isinstance(ret, HTTPException):\n            return ret\n        error_params = dict(params, _error=ret)\n"
+                   "        try:\n            return ret.source_route.execute_error(**error_params)\n        except Exception:\n"
+                   "            return default_render_error(**error_params)\n")
+T('d9_t_exec_error_renderer_named_first', ['C09', 'C08'],
+  (R, _EXEC_GUARD, "        render_error = self.render_error\n        if not callable(render_error):\n            raise TypeError('render_error not set or not callable')\n"),
+  (R, _EXEC_RET, "        return inject(render_error, injectables)\n"))
+T('d9_t_exec_error_result_named', ['C09'], (R, _EXEC_RET, "        response = inject(self.render_error, injectables)\n        return response\n"))
+T('d9_t_exec_error_guard_after_injectables', ['C09'], (R, _EXEC_GUARD, ""),
+  (R, _EXEC_RET, "        if callable(self.render_error):\n            return inject(self.render_error, injectables)\n        raise TypeError('render_error not set or not callable')\n"))
+T('d9_t_dispatch_error_rendered_by_early_returns', ['C09', 'C08'], (A, _DISPATCH_ERR_TAIL, _DISPATCH_EARLY))
+T('d9_t_dispatch_fallback_handler_names_exception', ['C09'], (A, _DISPATCH_ERR, _DISPATCH_ERR.replace("except Exception:", "except Exception as render_exc:")))
+T('d9_t_dispatch_error_rendered_in_helper', ['C09'],
+  (A, _DISPATCH_ERR_TAIL, "        if isinstance(ret, HTTPException):\n            ret = self._render_error_response(ret, params)\n        return ret\n\n"
+                          "    @staticmethod\n    def _render_error_response(http_error, params):\n        error_params = dict(params, _error=http_error)\n"
+                          "        try:\n            return http_error.source_route.execute_error(**error_params)\n        except Exception:\n"
+                          "            return default_render_error(**error_params)\n"))
+T('d9_t_exec_error_result_named_in_two_arms', ['C09'],
+  (R, _EXEC_RET, "        if kwargs:\n            response = inject(self.render_error, dict(injectables))\n        else:\n"
+                 "            response = inject(self.render_error, injectables)\n        return response\n"))
+B('d9_b_exec_error_one_arm_hands_back_error', ['C09'], 'R09.b',
+  (R, _EXEC_RET, "        if kwargs:\n            response = inject(self.render_error, dict(injectables))\n        else:\n"
+                 "            response = _error\n        return response\n"))
+B('d9_b_exec_error_hands_back_error_without_renderer', ['C09'], 'R09.b', (R, _EXEC_GUARD, "        if not callable(self.render_error):\n            return _error\n"))
+B('d9_b_exec_error_hands_back_nonbreaking_errors', ['C09'], 'R09.b',
+  (R, _EXEC_GUARD, _EXEC_GUARD + "        if not getattr(_error, 'is_breaking', True):\n            return _error\n"))
+B('d9_b_exec_error_returns_nothing_without_renderer', ['C09'], 'R09.b', (R, _EXEC_GUARD, "        if not callable(self.render_error):\n            return\n"))
+B('d9_b_exec_error_falls_off_without_renderer', ['C09'], 'R09.b', (R, _EXEC_GUARD, ""),
+  (R, _EXEC_RET, "        if callable(self.render_error):\n            return inject(self.render_error, injectables)\n"))
+B('d9_b_exec_error_swallows_renderer_failure', ['C09'], 'R09.b',
+  (R, _EXEC_RET, "        try:\n            return inject(self.render_error, injectables)\n        except Exception:\n            return _error\n"))
+B('d9_b_exec_error_named_result_replaced', ['C09'], 'R09.b',
+  (R, _EXEC_RET, "        response = inject(self.render_error, injectables)\n        if response is None:\n            response = _error\n        return response\n"))
+B('d9_b_dispatch_fallback_for_type_errors_only', ['C09'], 'R09.b', (A, _DISPATCH_ERR, _DISPATCH_ERR.replace("except Exception:", "except TypeError:")))
+B('d9_b_dispatch_fallback_only_when_debug', ['C09'], 'R09.b',
+  (A, _DISPATCH_ERR, _DISPATCH_ERR.replace("                ret = default_render_error(**error_params)\n",
+                                           "                if getattr(self, 'debug', False):\n                    ret = default_render_error(**error_params)\n")))
+B('d9_b_dispatch_no_fallback', ['C09'], 'R09.b', (A, _DISPATCH_ERR, "            ret = ret.source_route.execute_error(**error_params)\n"))
+B('d9_b_dispatch_fallback_hands_error_on', ['C09'], 'R09.b',
+  (A, _DISPATCH_ERR, _DISPATCH_ERR.replace("                ret = default_render_error(**error_params)\n", "                ret = error_params['_error']\n")))
+B('d9_b_dispatch_fallback_result_dropped', ['C09'], 'R09.b',
+  (A, _DISPATCH_ERR, _DISPATCH_ERR.replace("                ret = default_render_error(**error_params)\n", "                default_render_error(**error_params)\n")))
+B('d9_b_dispatch_rendered_response_replaced', ['C09'], 'R09.b', (A, _DISPATCH_ERR, _DISPATCH_ERR + "            ret = error_params['_error']\n"))
+B('d9_b_dispatch_early_returns_narrow_handler', ['C09'], 'R09.b', (A, _DISPATCH_ERR_TAIL, _DISPATCH_EARLY.replace("except Exception:", "except (TypeError, ValueError):")))
+B('d9_b_dispatch_early_returns_fallback_only_when_debug', ['C09'], 'R09.b',
+  (A, _DISPATCH_ERR_TAIL, _DISPATCH_EARLY.replace("            return default_render_error(**error_params)\n",
+                                                  "            if getattr(self, 'debug', False):\n                return default_render_error(**error_params)\n"
+                                                  "            return ret\n")))
